@@ -349,9 +349,20 @@ Definition elem_eqb (a b : elem) : bool :=
   | _, _ => false
   end.
 
-(* (a): the model's linearisation of a measure equals the written element stream *)
+(* a voice needs no <backup> and no chord of unequal durations: simultaneous non-grace notes have
+   equal duration, and a note does not exceed a later onset of the voice *)
+Definition sequential_b (l : list note) : bool :=
+  forallb (fun a => forallb (fun b =>
+     (if negb (grace a) && negb (grace b) && (onset a =? onset b) then dur a =? dur b else true) &&
+     (if onset a <? onset b then onset a + dur a <=? onset b else true)) l) l.
+
+(* (a): the model's linearisation of a measure equals the written element stream, and every
+   voice of every segment is sequential after the re-assignment *)
 Definition check_measure (c : list (list note * list other) * Z * Z * list elem) : bool :=
-  match c with (segs, ms, me, E) => list_eqb elem_eqb (lin_measure segs ms me) E end.
+  match c with (segs, ms, me, E) =>
+    list_eqb elem_eqb (lin_measure segs ms me) E &&
+    forallb (fun seg => forallb (fun vl => sequential_b (snd vl)) (voices_of (fst seg))) segs
+  end.
 
 (* (b): interp_q over the whole written part + tie merge = the score's sounding notes.
    tab: oid -> (midi pitch, tie stop, tie start); expected: (pitch, onset_q, dur_q). *)
